@@ -44,6 +44,14 @@ def bulk_entry(kind, i):
     if kind == 6: return [i + 1, ['v4', 32, [10] + b3(i)]]
     if kind == 7: return [i + 1, ['v6', 128, v6]]
     if kind == 8: return [i + 1, ['vpn6', [100, 200], [0, 2, 0, 1, 0] + b3(i), 64 + i % 17, v6]]
+    if kind == 9:
+        ip = [] if i % 3 == 0 else ([10] + b3(i) if i % 3 == 1 else v6)
+        return [i + 1, ['evpn', 2, [0, 0, 253, 232, 0] + b3(i), pat_bytes(10, i), i, [2, 0, 0] + b3(i), ip, i % 16777216, None if i % 2 == 0 else 200]]
+    if kind == 10: return [i + 1, ['fs', 0, None, [['p', 1, 24, 0, [10] + b3(i)], ['o', 4, [[1, i % 65536], [129, 443]]]]]]
+    if kind == 11: return [i + 1, ['rtc', 2, 65000 + i % 100, [0, 2, 253, 232, 0] + b3(i)]]
+    if kind == 12: return [i + 1, ['srp', i, 100 + i % 3, [10] + b3(i)]]
+    if kind == 13: return [i + 1, ['evpn', 5, [0, 2, 0, 1, 0] + b3(i), pat_bytes(10, i), i, i % 129, v6, pat_bytes(16, i + 1), 7]]
+    if kind == 14: return [i + 1, ['fs', 1, [0, 0, 253, 232, 0] + b3(i), [['o', 3, [[129, 6]]], ['o', 5, [[3, 1000 + i % 50000], [197, 70000]]]]]]
     raise ValueError(kind)
 
 def expand_entries(segs, family=None):
@@ -70,6 +78,15 @@ def nlri_val(n):
     if t == 'lab4': return [4, n[1], n[2], n[3]]
     if t == 'lab6': return [5, n[1], n[2], n[3]]
     if t == 'raw': return [9, n[1], n[2]]
+    if t == 'fs':
+        comps = [[0, c[1], c[2], c[3], c[4]] if c[0] == 'p' else [1, c[1], [list(o) for o in c[2]]] for c in n[3]]
+        return [10, n[1], [] if n[2] is None else [n[2]], comps]
+    if t == 'rtc': return [11, n[1], n[2], n[3]]
+    if t == 'evpn':
+        k = n[1]
+        if k == 2: return [12, 2, n[2], n[3], n[4], n[5], n[6], n[7], [] if n[8] is None else [n[8]]]
+        return [12] + list(n[1:])
+    if t == 'srp': return [13, n[1], n[2], n[3]]
     raise ValueError(n)
 
 def nlri_coq(n):
@@ -81,6 +98,21 @@ def nlri_coq(n):
     if t in ('lab4', 'lab6'):
         return '(%s %s %s %s)' % ('NLab4' if t == 'lab4' else 'NLab6', cbytes(n[1]), cN(n[2]), cbytes(n[3]))
     if t == 'raw': return '(NRaw %s)' % cbytes(n[2])
+    if t == 'fs':
+        comps = clist(['(FPrefix %s %s %s %s)' % (cN(c[1]), cN(c[2]), cN(c[3]), cbytes(c[4])) if c[0] == 'p' else
+                       '(FOps %s %s)' % (cN(c[1]), clist([cpair(cN(o[0]), cN(o[1])) for o in c[2]])) for c in n[3]])
+        return '(NFlow %s %s %s)' % (cbool(n[1]), copt(None if n[2] is None else cbytes(n[2])), comps)
+    if t == 'rtc':
+        return '(NRtc %s)' % (['RtcAll', '(RtcAs %s)' % cN(n[2]), '(RtcExact %s %s)' % (cN(n[2]), cbytes(n[3]))][n[1]])
+    if t == 'evpn':
+        k = n[1]
+        if k == 1: e = 'Ev1 %s %s %s %s' % (cbytes(n[2]), cbytes(n[3]), cN(n[4]), cN(n[5]))
+        elif k == 2: e = 'Ev2 %s %s %s %s %s %s %s' % (cbytes(n[2]), cbytes(n[3]), cN(n[4]), cbytes(n[5]), cbytes(n[6]), cN(n[7]), copt(None if n[8] is None else cN(n[8])))
+        elif k == 3: e = 'Ev3 %s %s %s' % (cbytes(n[2]), cN(n[3]), cbytes(n[4]))
+        elif k == 4: e = 'Ev4 %s %s %s' % (cbytes(n[2]), cbytes(n[3]), cbytes(n[4]))
+        else: e = 'Ev5 %s %s %s %s %s %s %s' % (cbytes(n[2]), cbytes(n[3]), cN(n[4]), cN(n[5]), cbytes(n[6]), cbytes(n[7]), cN(n[8]))
+        return '(NEvpn (%s))' % e
+    if t == 'srp': return '(NSrp %s %s %s)' % (cN(n[1]), cN(n[2]), cbytes(n[3]))
     raise ValueError(n)
 
 def entries_coq(segs):
